@@ -136,6 +136,9 @@ impl Kinematics for OPWKinematics {
 
                         // Check last time if the pose is ok
                         let check_pose = self.forward(&now);
+                        #[cfg(feature = "verif_hooks")]
+                        verif_hooks::trace(verif_hooks::Event::Candidate(now, compare_poses(
+                            &pose, &check_pose, DISTANCE_TOLERANCE, ANGULAR_TOLERANCE)));
                         if compare_poses(&pose, &check_pose, DISTANCE_TOLERANCE, ANGULAR_TOLERANCE) &&
                             self.constraints_compliant(now) {
                             // Guard against the case our solution is out of constraints.
@@ -484,6 +487,8 @@ impl OPWKinematics {
             [theta1_ii, theta2_iv, theta3_iv, theta4_viii, theta5_viii, theta6_viii],
         ];
 
+        #[cfg(feature = "verif_hooks")]
+        verif_hooks::trace(verif_hooks::Event::Theta(theta));
         let mut sols: [[f64; 6]; 8] = [[f64::NAN; 6]; 8];
         for si in 0..sols.len() {
             for ji in 0..6 {
@@ -671,6 +676,8 @@ impl OPWKinematics {
             [theta1_ii, theta2_iv, theta3_iv, theta4_viii, theta5_viii],
         ];
 
+        #[cfg(feature = "verif_hooks")]
+        verif_hooks::trace(verif_hooks::Event::Theta5(theta));
         let mut sols: [[f64; 6]; 8] = [[f64::NAN; 6]; 8];
         for si in 0..sols.len() {
             for ji in 0..5 {
@@ -894,4 +901,22 @@ pub mod verif_hooks {
     pub fn sort_by_closeness(k: &OPWKinematics, solutions: &mut Solutions, previous: &Joints) {
         k.sort_by_closeness(solutions, previous)
     }
+
+    /// Events recorded (per thread) while the solver runs; used to feed the recorded oracle
+    /// answers to the external model.
+    #[derive(Debug, Clone)]
+    pub enum Event {
+        /// singular candidate examined by inverse_continuing and its FK verdict
+        Candidate(Joints, bool),
+        /// raw 8x6 branch table of inverse_intern (model angles, before offsets/signs)
+        Theta([[f64; 6]; 8]),
+        /// raw 8x5 branch table of inverse_intern_5_dof
+        Theta5([[f64; 5]; 8]),
+    }
+    thread_local! {
+        static TRACE: std::cell::RefCell<Vec<Event>> = std::cell::RefCell::new(Vec::new());
+    }
+    pub(super) fn trace(e: Event) { TRACE.with(|t| t.borrow_mut().push(e)); }
+    /// Returns and clears the events recorded on this thread.
+    pub fn take_trace() -> Vec<Event> { TRACE.with(|t| std::mem::take(&mut *t.borrow_mut())) }
 }
